@@ -5,7 +5,8 @@
 from string import ascii_letters, digits
 from urllib.parse import uses_netloc
 
-from yarl._quoters import QUOTER
+from yarl._quoters import (FRAGMENT_QUOTER, FRAGMENT_REQUOTER, PATH_QUOTER, PATH_REQUOTER, QUERY_QUOTER,
+                           QUERY_REQUOTER, QUOTER, REQUOTER)
 
 from .prims import (CUT, all_chars_in, dec_value, first_not_of, first_of, is_ascii_digits, last_index,
                     lower_ascii, nfkc, re_match_, remove_char)
